@@ -57,6 +57,13 @@ class VecL:
         self.items = list(items or [])
 
 
+class MapL:
+    """a std::map / std::unordered_map with string keys, held as a python dict (insertion order kept)"""
+
+    def __init__(self):
+        self.d = {}
+
+
 class Heap:
     def __init__(self, size):
         self.size = size
@@ -824,6 +831,15 @@ class PEval:
                     r = Str(obj.b)
                     self.str_append(r, v)
                     return r
+            if isinstance(obj, MapL) and name == 'operator[]':
+                kx = self.ev(ops[1], env, depth)
+                kb = bytes(kx.b) if isinstance(kx, Str) else kx.cstr() if isinstance(kx, Lit) else kx if isinstance(kx, int) else None
+                if kb is None:
+                    raise Undecided('map key')
+                if kb not in obj.d:
+                    mt = dtype(n) or ''
+                    obj.d[kb] = VecL() if mt.replace('const ', '').startswith(('std::vector<', 'std::deque<')) else Str() if 'basic_string' in mt else 0
+                return obj.d[kb]
             if isinstance(obj, VecL) and name == 'operator[]':
                 i = self.ev(ops[1], env, depth)
                 if isinstance(i, int) and 0 <= i < len(obj.items):
@@ -1320,14 +1336,20 @@ class PEval:
         if name in ('find', 'rfind', 'find_first_of', 'find_last_of', 'find_first_not_of', 'find_last_not_of'):
             pat = vals[0]
             patb = bytes([pat & 0xFF]) if isinstance(pat, int) else bytes(pat.b) if isinstance(pat, Str) else pat.cstr() if isinstance(pat, Lit) else None
-            if patb is None or len(vals) > 1:
+            start = None
+            if len(vals) == 2 and isinstance(vals[1], int):
+                start = vals[1]
+            elif len(vals) == 3 and isinstance(vals[1], int) and isinstance(vals[2], int) and isinstance(pat, (Lit, Str)):
+                start = vals[1]
+                patb = patb[:vals[2]] if isinstance(pat, Str) else bytes(pat.data[pat.off:pat.off + vals[2]])
+            if patb is None or len(vals) > 3 or (len(vals) > 1 and start is None) or (start is not None and name not in ('find', 'rfind')):
                 raise Undecided('std::string::%s form' % name)
             hay = bytes(s.b)
             NPOS = (1 << 64) - 1
             if name == 'find':
-                j = hay.find(patb)
+                j = hay.find(patb, start) if start is not None and start <= len(hay) else (-1 if start is not None else hay.find(patb))
             elif name == 'rfind':
-                j = hay.rfind(patb)
+                j = hay.rfind(patb) if start is None else hay.rfind(patb, 0, start + len(patb))
             else:
                 neg = 'not' in name
                 idxs = [i for i, c in enumerate(hay) if (c in patb) != neg]
